@@ -65,7 +65,8 @@ func genLen(t *rapid.T, label string, allowHuge bool) int {
 	case "mid":
 		return rapid.IntRange(41, 3000).Draw(t, label+".n")
 	default:
-		if allowHuge && thorough() {
+		// 16 MiB values: thorough only, a few dozen per shard (class-weighted, every one costs ~0.5 s and 100 MiB)
+		if allowHuge && thorough() && rapid.IntRange(0, 24).Draw(t, label+".hugegate") == 0 {
 			return rapid.SampledFrom(hugeBoundaries).Draw(t, label+".n")
 		}
 		return rapid.IntRange(0, 40).Draw(t, label+".n")
@@ -154,16 +155,30 @@ func decodeCase[T any](raw json.RawMessage, check func(T) hx.Vs) hx.Vs {
 	return check(c)
 }
 
+// replaying is set while saved cases are replayed: they are played exactly as saved (the exclusion of open findings
+// applies to generated cases only), so a replay of an open finding still shows whether it reproduces.
+var replaying bool
+
 func TestReplay(t *testing.T) {
+	replaying = true
+	defer func() { replaying = false }()
 	R.Replay(t, map[string]hx.ReplayHandler{
-		"TestLenEnc":       func(raw json.RawMessage) hx.Vs { return decodeCase(raw, CheckLenEnc) },
-		"TestMySQLPacket":  func(raw json.RawMessage) hx.Vs { return decodeCase(raw, CheckMyPacket) },
-		"TestByteaCodecs":  func(raw json.RawMessage) hx.Vs { return decodeCase(raw, CheckBytea) },
-		"TestPGHandler":    func(raw json.RawMessage) hx.Vs { return decodeCase(raw, CheckPGHandler) },
-		"TestPGRelay":      func(raw json.RawMessage) hx.Vs { return decodeCase(raw, func(c PGCase) hx.Vs { vs, _, _ := CheckPG(c); return vs }) },
-		"TestPGRewrite":    func(raw json.RawMessage) hx.Vs { return decodeCase(raw, func(c PGCase) hx.Vs { vs, _, _ := CheckPG(c); return vs }) },
-		"TestMySQLRelay":   func(raw json.RawMessage) hx.Vs { return decodeCase(raw, func(c MyCase) hx.Vs { vs, _, _ := CheckMy(c); return vs }) },
-		"TestMySQLRewrite": func(raw json.RawMessage) hx.Vs { return decodeCase(raw, func(c MyCase) hx.Vs { vs, _, _ := CheckMy(c); return vs }) },
+		"TestLenEnc":      func(raw json.RawMessage) hx.Vs { return decodeCase(raw, CheckLenEnc) },
+		"TestMySQLPacket": func(raw json.RawMessage) hx.Vs { return decodeCase(raw, CheckMyPacket) },
+		"TestByteaCodecs": func(raw json.RawMessage) hx.Vs { return decodeCase(raw, CheckBytea) },
+		"TestPGHandler":   func(raw json.RawMessage) hx.Vs { return decodeCase(raw, CheckPGHandler) },
+		"TestPGRelay": func(raw json.RawMessage) hx.Vs {
+			return decodeCase(raw, func(c PGCase) hx.Vs { vs, _, _ := CheckPG(c); return vs })
+		},
+		"TestPGRewrite": func(raw json.RawMessage) hx.Vs {
+			return decodeCase(raw, func(c PGCase) hx.Vs { vs, _, _ := CheckPG(c); return vs })
+		},
+		"TestMySQLRelay": func(raw json.RawMessage) hx.Vs {
+			return decodeCase(raw, func(c MyCase) hx.Vs { vs, _, _ := CheckMy(c); return vs })
+		},
+		"TestMySQLRewrite": func(raw json.RawMessage) hx.Vs {
+			return decodeCase(raw, func(c MyCase) hx.Vs { vs, _, _ := CheckMy(c); return vs })
+		},
 		"TestMySQLBackToBack": func(raw json.RawMessage) hx.Vs { return decodeCase(raw, CheckBackToBack) },
 	})
 }
